@@ -96,13 +96,14 @@ class VTuple:
 
 
 class VArray:
-    __slots__ = ("elems", "n", "key", "ety")
+    __slots__ = ("elems", "n", "key", "ety", "init")
 
-    def __init__(self, elems, n, key=None, ety=None):
+    def __init__(self, elems, n, key=None, ety=None, init=None):
         self.elems = elems  # tuple or None
         self.n = n
         self.key = key
         self.ety = ety
+        self.init = init  # [MaybeUninit<u8>; N]: Lin = length of the initialised prefix
 
     def __repr__(self):
         return "Array(n=%s,%r)" % (self.n, self.elems if self.elems and len(self.elems) <= 8 else "...")
